@@ -230,11 +230,13 @@ def _message(rng: random.Random, name: str, typed: List[Tuple[str, str]], ind: s
     return "\n".join(lines)
 
 
-def gen_special_ws(rng: random.Random, idx: int, trad: Optional[bool] = None) -> WS:
+def gen_special_ws(rng: random.Random, idx: int, trad: Optional[bool] = None, alias: Optional[Tuple[bool, bool, bool]] = None) -> WS:
     """common <- types, util ; extra ; main_a imports all four (two `as`), main_b imports common
     under another name plus types.  Header / Packet / Color / Mode exist in several files."""
     if trad is None:
         trad = rng.random() < 0.5
+    if alias is None:
+        alias = (rng.random() < 0.5, rng.random() < 0.5, rng.random() < 0.5)
     x = not trad
     lintbad = rng.random() < 0.4
     pre = lambda: rng.choice(["", "", 'option c.name_prefix = "%s"\n' % rng.choice(["Cm", "lib_", "Zq", "A"])])  # noqa: E731
@@ -253,7 +255,7 @@ def gen_special_ws(rng: random.Random, idx: int, trad: Optional[bool] = None) ->
                  inner=_enum(rng, "Kind", "KIND", "    ", lintbad) + "\n" + _message(rng, "Inner", [("Kind", "kind")], "    ", x, lintbad)),
         "",
     ])
-    cm = rng.choice(["common", "cm"])
+    cm = "cm" if alias[0] else "common"
     imp = 'import "common.bitproto"' if cm == "common" else 'import cm "common.bitproto"'
     F["types.bitproto"] = "\n".join([
         "proto types", imp, pre(),
@@ -277,7 +279,7 @@ def gen_special_ws(rng: random.Random, idx: int, trad: Optional[bool] = None) ->
         _message(rng, "Thing", [("Mode", "mode")], "", x, lintbad),
         "",
     ])
-    tn = rng.choice(["ty", "types"])
+    tn = "ty" if alias[1] else "types"
     timp = 'import "types.bitproto"' if tn == "types" else 'import ty "types.bitproto"'
     imports_a = ['import "common.bitproto"', timp, 'import "util.bitproto"', 'import ex "extra.bitproto"']
     rng.shuffle(imports_a)
@@ -292,10 +294,11 @@ def gen_special_ws(rng: random.Random, idx: int, trad: Optional[bool] = None) ->
                               ("ex.Thing", "thing"), ("Mode", "mode"), (f"{tn}.Color[3]", "colors"), ("ex.Mode", "ex_mode"), ("uint8[TOTAL]", "buf")], "", x, lintbad),
         "",
     ])
+    bn = "base" if alias[2] else "cmn"
     F["main_b.bitproto"] = "\n".join([
-        "proto main_b", 'import base "common.bitproto"', 'import "types.bitproto"', 'import "extra.bitproto"', pre(),
+        "proto main_b", f'import {bn} "common.bitproto"', 'import "types.bitproto"', 'import "extra.bitproto"', pre(),
         _enum(rng, "Mode", "MODE", "", lintbad),
-        _message(rng, "Packet", [("base.Header", "hdr"), ("types.Header", "typed_hdr"), ("Mode", "mode"), ("base.Outer", "outer"), ("extra.Thing[2]", "things")], "", x, lintbad,
+        _message(rng, "Packet", [(f"{bn}.Header", "hdr"), ("types.Header", "typed_hdr"), ("Mode", "mode"), (f"{bn}.Outer", "outer"), ("extra.Thing[2]", "things")], "", x, lintbad,
                  inner=_message(rng, "Header", [("Mode", "mode")], "    ", x, lintbad)),
         _message(rng, "Header", [("Packet.Header", "nested_hdr")], "", x, lintbad),
         "",
@@ -303,7 +306,9 @@ def gen_special_ws(rng: random.Random, idx: int, trad: Optional[bool] = None) ->
     files = {fn: decorate(tx, rng, lintbad) for fn, tx in F.items()}
     others = ["common.bitproto", "types.bitproto", "util.bitproto", "extra.bitproto"]
     rng.shuffle(others)
-    return WS(f"s{idx}", files, ["main_a.bitproto", "main_b.bitproto"] + others[:2], "special")
+    w = WS(f"s{idx}", files, ["main_a.bitproto", "main_b.bitproto"] + others[:2], "special")
+    w.alias = alias  # type: ignore[attr-defined]
+    return w
 
 
 def text_twin(ws: WS, rng: random.Random, name: str) -> WS:
@@ -349,6 +354,8 @@ NOISE = {
     "bad5.bitproto": 'proto bad5\nimport "okdep.bitproto"\nmessage A {\n    okdep.Dep d = 1\n}\nimport "missing_file.bitproto"\n',
     "bad6.bitproto": 'proto bad6\n// before import\nimport "bad1.bitproto"\n',
     "bad7.bitproto": "proto bad7\nmessage A {\n    uint8 a = 1\n    uint9 b = 1\n}\n",
+    "bad8.bitproto": "proto bad8\nmessage A {\n    // pending 1\n    // pending 2\n    uint8 a = $\n}\n",
+    "bad9.bitproto": 'proto bad9\n// pending before import\nimport "bad8.bitproto"\n',
 }
 
 
@@ -551,7 +558,7 @@ DIMS = {
     "seed": ["0", "1", "2", "3", "random", "4242"],
     "cwd": ["ws", "root", "sub", "else"],
     "path": ["abs", "rel", "dot", "nonnorm"],
-    "out": ["abs", "rel", "slash", "nonnorm", "default", "default"],
+    "out": ["abs", "rel", "slash", "nonnorm", "default"],
     "q": ["0", "1"],
 }
 
@@ -834,7 +841,7 @@ def _ws_files(wss: List[WS]) -> Dict[str, str]:
 
 SIZES = {
     # random ws, special ws (each gets a twin), random twins, optional -O configs per target, variants per unit, schedules, schedule length
-    "quick": dict(n_random=9, n_special=3, n_rtwin=3, nopt=1, nvar=2, n_sched=40, sched_len=22),
+    "quick": dict(n_random=8, n_special=2, n_rtwin=3, nopt=1, nvar=2, n_sched=36, sched_len=20),
     "thorough": dict(n_random=70, n_special=24, n_rtwin=20, nopt=3, nvar=4, n_sched=420, sched_len=30),
 }
 
@@ -857,8 +864,9 @@ def _check(run: common.Run, rng: random.Random, sz: Dict[str, int], root: str) -
     for i in range(sz["n_special"]):
         w = gen_special_ws(rng, i, trad=(i % 2 == 0))
         wss.append(w)
-        # twin: the same generator (same names everywhere), other random content
-        t = gen_special_ws(rng, i, trad=(i % 2 == 0))
+        # twin: the same generator (same names everywhere), other random content, and the other
+        # `import ... as` spelling for the same imported files
+        t = gen_special_ws(rng, i, trad=(i % 2 == 0), alias=tuple(not b for b in w.alias))  # type: ignore
         t.name = f"s{i}t"
         t.kind = "special-twin"
         t.twin_of = w.name
@@ -903,6 +911,9 @@ def _check(run: common.Run, rng: random.Random, sz: Dict[str, int], root: str) -
 
 def _phases(run: common.Run, rng: random.Random, sz: Dict[str, int], root: str, wss: List[WS], units: List[Unit], noise_dir: str, pool: Any) -> None:
     # ------------------------------------------------------------------ phase 1: references
+    import time as _t
+    t0 = _t.time()
+    phase = run.notes.setdefault("phase_seconds", {})
     futs = [(u, pool.submit(cli_job, root, u, BASE_VAR)) for u in units]
     valid: List[Unit] = []
     for u, f in futs:
@@ -962,7 +973,11 @@ def _phases(run: common.Run, rng: random.Random, sz: Dict[str, int], root: str, 
             "observed_impl": {"rc": r["rc"], "files": r["files"], "first_difference": diff, "stderr": r["stderr"][-300:]},
         }), suffix=f"unit={u.key()} variation={json.dumps(var, sort_keys=True)}")
 
+    phase["references"] = round(_t.time() - t0, 1)
+    if not valid:
+        run.notes["warning"] = "no (program, options) pair compiled in the reference configuration - nothing was compared"
     # ------------------------------------------------------------------ phase 2: fresh-process variations
+    t0 = _t.time()
     jobs: List[Tuple[Unit, Dict[str, str]]] = []
     rot = 0
     for u in valid:
@@ -988,7 +1003,9 @@ def _phases(run: common.Run, rng: random.Random, sz: Dict[str, int], root: str, 
             shutil.rmtree(r["dir"], ignore_errors=True)
     run.sample({"fresh_process_example": _mark(root, {"unit": jobs[0][0].key(), "variation": jobs[0][1]})} if jobs else {})
 
+    phase["fresh_process_variations"] = round(_t.time() - t0, 1)
     # ------------------------------------------------------------------ phase 3: many compiles in one process
+    t0 = _t.time()
     sb = SchedBuilder(root, rng, valid, noise_dir)
     kinds = ["interleave", "interleave", "lang-cycle", "kept", "kept", "repeat"]
     scheds = [sb.build(kinds[i % len(kinds)], sz["sched_len"]) for i in range(sz["n_sched"])] if valid else []
@@ -1004,6 +1021,7 @@ def _phases(run: common.Run, rng: random.Random, sz: Dict[str, int], root: str, 
             for st in s["steps"]:
                 if "outdir_abs" in st:
                     shutil.rmtree(st["outdir_abs"], ignore_errors=True)
+    phase["one_process_schedules"] = round(_t.time() - t0, 1)
     if scheds:
         s0 = scheds[0]
         run.sample({"one_process_example": _mark(root, {"kind": s0["kind"], "seed": s0["seed"], "steps": [{k: v for k, v in st.items() if k in ("op", "unit", "key", "lint", "gc", "path_style", "file")} for st in s0["steps"][:8]]})})
@@ -1055,23 +1073,39 @@ def check_schedule(run: common.Run, s: Dict[str, Any], res: Dict[str, Any], by_k
 def report_schedule(run: common.Run, root: str, s: Dict[str, Any], res: Dict[str, Any], bad: int, by_key: Dict[str, Unit], wss: List[WS]) -> None:
     st = s["steps"][bad]
     why = step_fails(st, res["recs"].get(bad), by_key) or "process ended during this step"
-    # shrink: drop earlier steps while the same step still fails the same way
+    # shrink: (1) in parallel, try [steps the failing one needs] + one earlier step + failing step;
+    # (2) otherwise drop earlier steps one at a time while the same step still fails the same way
     steps = s["steps"][: bad + 1]
-    budget = 40
-    j = len(steps) - 2
     last_res = res
-    while j >= 0 and budget > 0:
-        cand = steps[:j] + steps[j + 1:]
+    need = [x for x in steps[:-1] if x["op"] == "parse" and x.get("key") == st.get("key") and st.get("key")]
+
+    def attempt(cand: List[Dict[str, Any]]) -> Optional[Tuple[List[Dict[str, Any]], Dict[str, Any]]]:
         cs = {"kind": s["kind"], "seed": s["seed"], "steps": [_refresh(root, x) for x in cand]}
         r2 = run_schedule(root, cs)
-        budget -= 1
         k = len(cand) - 1
         w2 = step_fails(cs["steps"][k], r2["recs"].get(k), by_key)
         earlier_ok = all(step_fails(cs["steps"][q], r2["recs"].get(q), by_key) is None for q in range(k))
         if w2 is not None and w2.split(":")[0] == why.split(":")[0] and earlier_ok:
-            steps = cs["steps"]
-            last_res = r2
-        j -= 1
+            return cs["steps"], r2
+        return None
+
+    cands = [need + [st]] + [need + [x, st] for x in steps[:-1] if x not in need][-30:]
+    found = None
+    with concurrent.futures.ThreadPoolExecutor(16) as ex:
+        for got in ex.map(attempt, cands):
+            if got is not None and (found is None or len(got[0]) < len(found[0])):
+                found = got
+    if found is not None:
+        steps, last_res = found
+    else:
+        budget = 16
+        j = len(steps) - 2
+        while j >= 0 and budget > 0:
+            got = attempt(steps[:j] + steps[j + 1:])
+            budget -= 1
+            if got is not None:
+                steps, last_res = got
+            j -= 1
     final = {"kind": s["kind"], "seed": s["seed"], "steps": steps}
     k = len(steps) - 1
     rec = last_res["recs"].get(k) or {}
